@@ -35,6 +35,9 @@ type unit struct {
 	Names    map[string]bool // identifiers declared by the program (for message normalisation)
 	Dir      string
 	Rejected bool // the parse / validation stage rejected it (json gate)
+	// regeneration pool: the earlier revision compiled into the same -out first
+	// (nil = the same sources, another option set)
+	PrevSrc map[string]string
 	// enums (by file base name) whose numbers are pairwise distinct in the
 	// model: the compiler must give every member its own number too
 	DistinctEnums map[string][]string
@@ -60,6 +63,7 @@ type comp struct {
 	H      *emit.Harness
 	Res    *emit.Result
 	OK     bool
+	Regen  *regenStep // regeneration history: the earlier run into the same -out (regen.go)
 }
 
 func (cp *comp) label() string {
@@ -182,6 +186,17 @@ func (c *c11) fail(diagClass string, cp *comp, what, diag, file string) {
 	w["diagnostic"] = clip(reAnsi.ReplaceAllString(diag, ""), 1500)
 	if file != "" {
 		w["file"] = file
+	}
+	if st := cp.Regen; st != nil {
+		h := map[string]interface{}{"kind": st.Kind, "earlier_run_gen": st.T.gen(st.S), "earlier_run_extra_args": st.S.Extra,
+			"note": "run the earlier compilation into an empty -out directory, then the judged one (gen / extra_args / sources) into the same directory"}
+		if cp.U.PrevSrc != nil {
+			h["earlier_run_sources"] = cp.U.PrevSrc
+		} else {
+			h["earlier_run_sources"] = "the same sources"
+		}
+		w["regeneration_history"] = h
+		what += " [-out already held the output of " + st.T.gen(st.S) + ", " + st.Kind + "]"
 	}
 	c.violation(sig, fmt.Sprintf("%s [%s, program %s]: %s", what, cp.label(), cp.U.ID, clip(firstLines(reAnsi.ReplaceAllString(diag, ""), 3), 400)), w)
 }
@@ -388,7 +403,12 @@ func (c *c11) compileUnit(u *unit, sel []*comp) {
 			continue
 		}
 		var r *emit.Result
-		if cp.T.Name == "go" && cp.S.Bare {
+		if cp.Regen != nil {
+			if r = c.compileRegen(cp); r == nil {
+				run.Eval(1)
+				continue
+			}
+		} else if cp.T.Name == "go" && cp.S.Bare {
 			cp.OutDir = filepath.Join(c.base, "gobare", strconv.Itoa(cp.ID), "gen")
 			r = c.runCompiler("", u.Dir, 60*time.Second, "-gen", "go:"+cp.S.Opts, "-r", "-out", cp.OutDir, u.Root)
 		} else if cp.T.Name == "go" {
@@ -416,7 +436,7 @@ func (c *c11) compileUnit(u *unit, sel []*comp) {
 		run.Distinct(fmt.Sprintf("%s pool=%s class=%s", cp.label(), u.Pool, u.Class))
 		out := r.Stdout + r.Stderr
 		kind := crashKind(out, r.ExitCode, r.Signaled)
-		gate := cp.T.Name == "json" && cp.S.Label == ""
+		gate := cp.T.Name == "json" && cp.S.Label == "" && cp.Regen == nil
 		switch {
 		case r.TimedOut:
 			c.fail("hang", cp, "the compiler did not terminate within 60 s (twice) on a valid program", out, "")
@@ -477,21 +497,25 @@ func (c *c11) oracles() {
 			continue
 		}
 		switch cp.T.Name {
+		case "go":
+			if cp.Regen != nil {
+				c.goParseOracle(cp)
+			}
 		case "py":
-			f := listFiles(cp.OutDir, ".py")
+			f := cp.emitted(".py")
 			py2 = append(py2, f...)
 			py3 = append(py3, f...)
 		case "py:tornado":
-			py2 = append(py2, listFiles(cp.OutDir, ".py")...)
+			py2 = append(py2, cp.emitted(".py")...)
 		case "py:asyncio":
-			py3 = append(py3, listFiles(cp.OutDir, ".py")...)
+			py3 = append(py3, cp.emitted(".py")...)
 		case "java":
-			java = append(java, listFiles(cp.OutDir, ".java")...)
+			java = append(java, cp.emitted(".java")...)
 		case "html":
-			html = append(html, listFiles(cp.OutDir, ".html")...)
+			html = append(html, cp.emitted(".html")...)
 		case "dart":
 			n := 0
-			for _, f := range listFiles(cp.OutDir, ".dart") {
+			for _, f := range cp.emitted(".dart") {
 				b, err := os.ReadFile(f)
 				if err != nil {
 					continue
